@@ -92,7 +92,11 @@ DanglingAgree(g, a, b) ==
   LET ra == g.nodes[a].ref  rb == g.nodes[b].ref
       ua == Resolve(g.docs[g.nodes[a].doc].url, ra)
       ub == Resolve(g.docs[g.nodes[b].doc].url, rb)
-  IN  ra = rb \/ (SameDoc(ua, ub) /\ ua.ptr = ub.ptr)
+      \* (the query is left out of this comparison: the library lets a relative reference inherit
+      \* the query of its base document - pinned by the repository's normalizer tests - and the
+      \* properties say nothing about queries of unresolvable references)
+      samePlace == ua.scheme = ub.scheme /\ ua.host = ub.host /\ ua.segs = ub.segs
+  IN  ra = rb \/ (samePlace /\ ua.ptr = ub.ptr)
 PairOK(g, tm, pr) ==
   LET a == Deref(g, tm, pr[1])  b == Deref(g, tm, pr[2])
   IN  /\ Obs(g, a) = Obs(g, b)
